@@ -97,11 +97,6 @@ theorem pushOrStmt_stmts {st st' : PState} {index : Int} {op ps : Node} (h : pus
   unfold pushOrStmt at h
   stmts_auto h
 
-theorem bind_ok {α β : Type} {x : R α} {f : α → R β} {b : β} (h : (x >>= f) = .ok b) : ∃ a, x = .ok a ∧ f a = .ok b := by
-  cases x with
-  | error e => cases h
-  | ok a => exact ⟨a, rfl, h⟩
-
 theorem pop_stmts {st : PState} {v : Node × PState} (h : st.pop = .ok v) : v.2.stmts = st.stmts := by
   unfold PState.pop at h
   split at h
